@@ -164,7 +164,7 @@ def check(ctx):
     def at_exit_iii(kind, st, facts):
         if kind != "return":
             return None
-        if F("origin is self") in facts and not ({"arm", "clear"} & set(st)):
+        if (F("origin is self")[0], False) not in facts and not ({"arm", "clear"} & set(st)):
             return "the origin scope leaves a delivery round without either re-arming the callback or clearing its handle"
         if "ret" not in st:
             return "the delivery round does not report whether a retry is needed"
@@ -202,7 +202,7 @@ def check(ctx):
         ctx.require_at("R03-d", shield_set, rs[0][0], [[f"not {val}"]], instance="restart when the shield is dropped")
 
     def at_exit_s(kind, st, facts):
-        if kind == "return" and (val, False) in facts and (F(f"self._shield == {val}")[0], False) in facts and not st:
+        if kind == "return" and not st and (val, True) not in facts and (F(f"self._shield == {val}")[0], True) not in facts:
             return "dropping the shield does not restart delivery of a visible outer cancellation"
         return None
 
@@ -228,7 +228,7 @@ def check(ctx):
                            instance="delivery (re)started only in a cancelled scope whose callback is not already pending")
 
         def at_exit_w(kind, st, facts):
-            if kind == "return" and (f"{v}._cancel_called", True) in facts and (f"{v}._cancel_handle is None", True) in facts and not st:
+            if kind == "return" and (f"{v}._cancel_called", True) in facts and (f"{v}._cancel_handle is None", False) not in facts and not st:
                 return "a cancelled scope without a pending delivery callback is found but delivery is not restarted"
             return None
 
